@@ -1,9 +1,13 @@
 pub mod c11;
+pub mod sem;
 
 pub fn dispatch(mode: &str, engine: &str, rest: &[String]) -> anyhow::Result<()> {
     match (mode, engine) {
         ("replay", "c11") => c11::replay(rest),
         ("record", "c11") => c11::record(rest),
+        ("record", "sem") => sem::record(rest),
+        ("replay", "sem") => sem::replay(rest),
+        ("runsrc", "sem") => sem::runsrc(rest),
         _ => anyhow::bail!("unknown mode/engine {} {}", mode, engine),
     }
 }
